@@ -163,6 +163,9 @@ def make_descs(rng, n):
         [("L", "-"), ("U", "-"), ("B", "-")], ("U", "U"),
         [("-", "U")], ("-", "-"),
         [], ("U", "-"),
+        # positions, not counts: inputs without (standard|physical) bounds placed before inputs that have them
+        [("-", "-"), ("-", "B"), ("L", "-"), ("B", "B")], ("-", "L"),
+        [("U", "-"), ("-", "-"), ("-", "L"), ("L", "L")], ("B", "-"),
     ]
     for i in range(n):
         law = "C38MP%d" % i
@@ -178,6 +181,29 @@ def make_descs(rng, n):
         ins.append(q)
         coeffs = [rng.choice([-2, -1, 1, 2]) for _ in ins[:-1]] + [0]
         D.append(Desc(law, ins, out, coeffs, rng.randint(-80, 80)))
+    return D
+
+
+PATTERN = {"n": ("-", "-"), "s": ("-", "S"), "p": ("P", "-"), "b": ("P", "S")}    # none, standard, physical, both
+
+
+def make_pattern_descs(rng, sizes):
+    """every pattern of {none, standard only, physical only, both} over k inputs (k in sizes), random bound
+    kinds; text level only (mfront generation + skeleton comparison, no compilation)"""
+    D = []
+    for k in sizes:
+        for pat in itertools.product("nspb", repeat=k):
+            ins = []
+            for j, c in enumerate(pat):
+                pk, sk = PATTERN[c]
+                pk = rng.choice(["L", "U", "B"]) if pk == "P" else "-"
+                if sk == "S":
+                    sk = rng.choice({"-": ["L", "U", "B"], "L": ["L", "B"], "U": ["U", "B"], "B": ["B"]}[pk])
+                ins.append(rand_var(rng, "x%d" % (j + 1), pk, sk))
+            ins.append(Var("q"))
+            out = rand_var(rng, "y")
+            coeffs = [rng.choice([-2, -1, 1, 2]) for _ in ins[:-1]] + [0]
+            D.append(Desc("C38T%d%s" % (k, "".join(pat)), ins, out, coeffs, rng.randint(-80, 80)))
     return D
 
 
@@ -611,14 +637,15 @@ SITE_C = C_SRC + ":writeMaterialPropertyCheckBoundsBody"
 def run(ck):
     rng = random.Random(ck.seed)
     mfront = build_mfront(ck)
-    ndesc = 6 if ck.quick else 40
+    ndesc = 8 if ck.quick else 40
     descs = make_descs(rng, ndesc)
+    tdescs = make_pattern_descs(random.Random(ck.seed + 7919), (2, 3, 4))
     gendir = ck.path("gen")
     os.makedirs(gendir, exist_ok=True)
-    for d in descs:
+    for d in descs + tdescs:
         with open(os.path.join(gendir, d.law + ".mfront"), "w") as f:
             f.write(d.mfront())
-    generate(ck, mfront, gendir, [d.law + ".mfront" for d in descs])
+    generate(ck, mfront, gendir, [d.law + ".mfront" for d in descs + tdescs])
     check_interposition(ck, mfront, gendir, descs[0].law + ".mfront")
     driver = ck.lean_exe("c38driver", "TfelVerif/C38/Driver.lean")
     res = ck.lean(PROPS, PROPS)
@@ -628,11 +655,12 @@ def run(ck):
             ck.violation("leanchecker:" + m, "leanchecker rejects " + m, {"log": log}, False)
 
     # ---- (a) text level
-    q = "".join("gen %s\ngenc %s\n" % (d.enc(), d.enc()) for d in descs)
+    alld = descs + tdescs
+    q = "".join("gen %s\ngenc %s\n" % (d.enc(), d.enc()) for d in alld)
     pm = ck.run([driver], input=q, timeout=600).stdout.splitlines()
     text_diffs = {}            # law -> list of (interface, expected line, emitted line)
     skeleton_lines = 0
-    for k, d in enumerate(descs):
+    for k, d in enumerate(alld):
         mg = [l.strip() for l in pm[2 * k].split(";")] if 2 * k < len(pm) else ["?driver"]
         mc = [l.strip() for l in pm[2 * k + 1].split(";") if l.strip()] if 2 * k + 1 < len(pm) else ["?driver"]
         try:
@@ -653,7 +681,11 @@ def run(ck):
                 if a != b:
                     text_diffs.setdefault(d.law, []).append((itf, a, b))
 
-    # ---- (b) run level
+    # ---- (b) run level: the directed/random laws, plus (at most 3) text-only laws whose skeleton differs, so that a
+    # difference seen in the text is turned into a concrete failing call
+    promoted = [d for d in tdescs if d.law in text_diffs][:3]
+    n_text_only = len(tdescs)
+    descs = descs + promoted
     hg, hc = build_harnesses(ck, descs, gendir)
     calls = []        # (desc, args, nargs, policy, e0)
     cbs = []
@@ -748,7 +780,7 @@ def run(ck):
     for law, diffs, (itf, a, b) in sorted(flat, key=lambda t: (t[0] not in viol_by_law, t[0])):
         rep = {"law": law, "interface": itf, "model_skeleton_line": a, "emitted_skeleton_line": b,
                "all_differences": [list(x) for x in diffs[:10]],
-               "mfront_file": [d for d in descs if d.law == law][0].mfront()}
+               "mfront_file": [d for d in alld if d.law == law][0].mfront()}
         wit = viol_by_law.get(law)
         line_kind = " ".join(a.split()[:2]) if not a.startswith("<") else " ".join(b.split()[:2])
         key = "text:%s:%s" % (GEN_SRC if itf == "generic" else C_SRC, re.sub(r"\d+", "N", line_kind))
@@ -776,7 +808,8 @@ def run(ck):
         "rule": "one evaluation = one call of a compiled emitted function (generic interface: description x argument vector on/around "
                 "each bound and jointly out of bounds x 3 policies x errno in {0,33,7} x body behaviour; plus wrong argument counts; "
                 "c interface: _checkBounds on the same vectors); distinct = distinct (law, arguments, nargs, policy, errno) tuples",
-        "exhaustive": False, "material_properties_generated": len(descs), "skeleton_lines_compared": skeleton_lines,
+        "exhaustive": False, "material_properties_generated": len(alld), "material_properties_compiled_and_called": len(descs),
+        "text_level_pattern_descriptions": n_text_only, "skeleton_lines_compared": skeleton_lines,
         "text_level_differences": sum(len(v) for v in text_diffs.values()),
         "disagreements": disagreements, "histogram_paths": dict(sorted(hist.items())),
         "descriptions": [d.enc() for d in descs[:12]],
